@@ -16,6 +16,7 @@ import (
 	"os/exec"
 	"path/filepath"
 	"sort"
+	"strconv"
 	"strings"
 	"sync"
 	"time"
@@ -189,13 +190,16 @@ func refreshScenario(s *kit.Summary, table *dnsTable, tag string) {
 		{"all_replaced_mixed", cat(v4(12, 1, 2), v6(12, 1)), cat(v4(12, 9), v6(12, 9))},
 	}
 	for _, v := range variants {
-		if !refreshVariant(s, table, tag, v.name, v.old, v.new) {
+		if !refreshVariant(s, table, tag, v.name, v.old, v.new, false) {
 			return // the refresh does not happen at all: reported once
 		}
 	}
+	// the same after ONE refresh round that took several ttl (a slow DNS server): re-resolution must go on
+	refreshVariant(s, table, tag, "after_slow_round", cat(v4(13, 1, 2), v6(13, 1)), cat(v4(13, 3, 4), v6(13, 2)), true)
+	refreshVariant(s, table, tag, "after_slow_round_same_first", v4(14, 1, 2, 3), v4(14, 1, 4, 5), true)
 }
 
-func refreshVariant(s *kit.Summary, table *dnsTable, tag, name string, oldIPs, newIPs []string) bool {
+func refreshVariant(s *kit.Summary, table *dnsTable, tag, name string, oldIPs, newIPs []string, slowRound bool) bool {
 	const ttl = 20 * time.Millisecond
 	host := "ttl-" + name + "-" + tag + ".c18.test"
 	host = strings.ReplaceAll(host, "_", "-")
@@ -267,6 +271,39 @@ func refreshVariant(s *kit.Summary, table *dnsTable, tag, name string, oldIPs, n
 	}
 	if !judge(30, oldIPs, "before the change") {
 		return true
+	}
+	if slowRound {
+		// wait for a first periodic round (the entry is in use), then hold back the answers of one
+		// round for 4 ttl each — they still arrive, the lookup succeeds — and answer promptly again
+		key := strings.ToLower(host) + "."
+		q0 := questions()
+		dl := time.Now().Add(15 * time.Second)
+		for questions() == q0 && time.Now().Before(dl) {
+			one()
+			time.Sleep(ttl / 4)
+		}
+		table.mu.Lock()
+		table.delay[key] = 4 * ttl
+		table.mu.Unlock()
+		held := func() int {
+			table.mu.Lock()
+			defer table.mu.Unlock()
+			return table.delayed[key]
+		}
+		for held() < 2 && time.Now().Before(dl) {
+			one()
+			time.Sleep(ttl / 4)
+		}
+		table.mu.Lock()
+		delete(table.delay, key)
+		table.mu.Unlock()
+		if held() < 2 {
+			s.Skipped["slow_round_not_observed"]++
+			return true
+		}
+		s.Count("refresh:slow_round_held_answers")
+		// let the questions still being held back drain, so that the rounds counted below are new ones
+		time.Sleep(6 * ttl)
 	}
 	table.set(host, newIPs)
 	// keep the entry in use and wait for the questions of the THIRD refresh round after the change:
@@ -539,4 +576,162 @@ func e2eDial(c *run.Ctx, s *kit.Summary, table *dnsTable, dnsAddr string, tag st
 			viol("cli_connect_to_rotation", "with DNS caching, hits to a name mapped onto a resolvable name did not connect to that name's addresses", fmt.Sprintf(">= %d connections for %d hits", hits/2, hits), fmt.Sprint(got), "connect_to_name_cached", args)
 		}
 	}
+}
+
+// composeStream: random sequences of the attacker options that touch the dial function, applied to
+// a fresh attacker; two probe dials through the resulting dial function tell which function sits at
+// the bottom and which wrappers survived; compared with the model's option composition (c18.compose).
+func composeStream(c *run.Ctx, s *kit.Summary, r *kit.Rng, table *dnsTable, tag string) {
+	ipA, ipB := "127.0.0.2", "127.0.0.9"
+	var la, lb *countingListener
+	var port string
+	for try := 0; try < 20 && lb == nil; try++ {
+		a, err := listenCounting("tcp4", ipA+":0")
+		if err != nil {
+			break
+		}
+		if b, err := listenCounting("tcp4", ipB+":"+a.port()); err == nil {
+			la, lb, port = a, b, a.port()
+		} else {
+			a.ln.Close()
+		}
+	}
+	if lb == nil {
+		s.Skipped["loopback_listen_unavailable"]++
+		return
+	}
+	defer la.ln.Close()
+	defer lb.ln.Close()
+	sock := filepath.Join(c.Work, "compose.sock")
+	lu, err := listenCounting("unix", sock)
+	if err != nil {
+		s.Skipped["unix_listen_unavailable"]++
+		return
+	}
+	defer lu.ln.Close()
+	svcHost, svcPort := "svc-"+tag+".compose", "80"
+	hostC := "hostc-" + tag + ".c18.test"
+	table.set(hostC, []string{ipA})
+	cmap := map[string][]string{svcHost + ":" + svcPort: {hostC + ":" + port}, ipA + ":" + port: {ipB + ":" + port}}
+	pool := []string{"L", "K0", "K1", "H0", "H1", "U0", "U1", "D0", "D1", "C0", "C1", "B", "O"}
+	st := &kit.Stream{Name: "c18.compose"}
+	n := c.N(150, 3000)
+	for i := 0; i < n; i++ {
+		var seq []string
+		switch {
+		case i == 0: // the command's order, keep-alive off
+			seq = []string{"L", "K0", "H0", "U0", "D0", "C0"}
+		case i == 1: // wrappers installed before KeepAlive(false)
+			seq = []string{"L", "D0", "C0", "K0", "H0", "U0"}
+		case i == 2:
+			seq = []string{"B", "D0", "C0"}
+		case i == 3:
+			seq = []string{"B", "C0", "D0"}
+		default:
+			for k := 1 + r.Pick(7); k > 0; k-- {
+				o := pool[r.Pick(len(pool))]
+				if o == "H1" && r.Chance(0.6) {
+					o = "H0"
+				}
+				seq = append(seq, o)
+			}
+		}
+		rec := newRecorder()
+		var opts []func(*vegeta.Attacker)
+		for _, o := range seq {
+			switch o {
+			case "L":
+				opts = append(opts, vegeta.LocalAddr(vegeta.DefaultLocalAddr))
+			case "K0", "K1":
+				opts = append(opts, vegeta.KeepAlive(o == "K1"))
+			case "H0", "H1":
+				opts = append(opts, vegeta.H2C(o == "H1"))
+			case "U0":
+				opts = append(opts, vegeta.UnixSocket(""))
+			case "U1":
+				opts = append(opts, vegeta.UnixSocket(sock))
+			case "D0":
+				opts = append(opts, vegeta.DNSCaching(0))
+			case "D1":
+				opts = append(opts, vegeta.DNSCaching(-1))
+			case "C0":
+				opts = append(opts, vegeta.ConnectTo(cmap))
+			case "C1":
+				opts = append(opts, vegeta.ConnectTo(map[string][]string{}))
+			case "B":
+				opts = append(opts, vegeta.VerifBaseDial(rec.dial))
+			case "O":
+				opts = append(opts, vegeta.Workers(3))
+			}
+		}
+		op := "c18.compose " + strconv.Itoa(len(seq)) + " " + strings.Join(seq, " ") + " " + kit.HexS(svcHost) + " " + kit.HexS(svcPort) + " " +
+			kit.HexS(hostC) + " " + kit.HexS(port) + " " + kit.HexS(ipA) + " " + kit.HexS(ipB)
+		s.Case("compose:"+strings.Join(seq, ","), len(seq) >= 2)
+		s.Count("compose:sequences")
+		var atk *vegeta.Attacker
+		if p, _ := kit.Recover(func() { atk = vegeta.NewAttacker(opts...) }); p {
+			st.Add(op, "panic")
+			s.Count("compose:panic")
+			continue
+		}
+		dial := atk.VerifDialContext()
+		if dial == nil {
+			st.Add(op, "ok 0")
+			s.Count("compose:transport_swapped")
+			continue
+		}
+		var id int64
+		base := ""
+		probe := func(addr string) string {
+			id++
+			a0, b0, u0 := la.count(), lb.count(), lu.count()
+			ctx, cancel := context.WithTimeout(context.WithValue(context.Background(), dialIDKey{}, id), 3*time.Second)
+			conn, _ := dial(ctx, "tcp", addr)
+			cancel()
+			if conn != nil {
+				conn.Close()
+				waitCount(func() int { return la.count() + lb.count() + lu.count() }, a0+b0+u0+1)
+			}
+			rec.mu.Lock()
+			seen := append([]string(nil), rec.byDial[id]...)
+			rec.mu.Unlock()
+			var out []string
+			switch {
+			case len(seen) > 0:
+				base = "custom"
+				for _, a := range seen {
+					h, p, _ := net.SplitHostPort(a)
+					out = append(out, kit.HexS(h)+":"+kit.HexS(p))
+				}
+			case lu.count() > u0:
+				base = "unix"
+				out = append(out, "unix")
+			case la.count() > a0:
+				base = "dialer"
+				out = append(out, "L"+kit.HexS(ipA))
+			case lb.count() > b0:
+				base = "dialer"
+				out = append(out, "L"+kit.HexS(ipB))
+			}
+			if len(out) == 0 {
+				return "-"
+			}
+			return strings.Join(out, ",")
+		}
+		ra := probe(svcHost + ":" + svcPort)
+		rb := probe(hostC + ":" + port)
+		atk.Stop()
+		if base == "" {
+			base = "?"
+		}
+		s.Count("compose:base=" + base)
+		st.Add(op, "ok 1 "+base+" | A "+ra+" | B "+rb)
+		// oracle (command's order): the mapped name must reach its replacement through the cache
+		if i == 0 && !(ra == "L"+kit.HexS(ipA) && rb == "L"+kit.HexS(ipA)) {
+			s.Violate(kit.Violation{Kind: "cli_connect_to_rotation", What: "options in the command's order with -keepalive=false: the mapped name did not reach its replacement through the cache, or an unmapped name did not reach its resolved address",
+				Input: map[string]interface{}{"scenario": "compose", "options": seq}, Expected: "A and B at " + ipA, Observed: ra + " / " + rb,
+				Key: map[string]interface{}{"scenario": "compose"}})
+		}
+	}
+	st.Diff(c.Driver, s)
 }
